@@ -37,6 +37,21 @@ Proof.
 Qed.
 Print Assumptions C19_set_changes_exactly_one.
 
+(* the same at the level of whole input lines, for names and values made of plain characters
+   (no blanks, quotes or backslashes): `.set NAME VALUE` then `.set NAME` *)
+Theorem C19_set_line : forall (W : World) quiet st n v cur val,
+  n <> [] -> v <> [] -> forallb plain n = true -> forallb plain v = true ->
+  lookup st n = Some cur -> parse_value n (type_of cur) v = inr val ->
+  step W quiet st (s2z ".set " ++ n ++ [32] ++ v) = (update st n val, [], false) /\
+  step W quiet (update st n val) (s2z ".set " ++ n) =
+    (update st n val, [EText Outfile (lit W (n ++ s2z ": " ++ getstr val ++ [10]))], false).
+Proof.
+  intros W quiet st n v cur val H1 H2 H3 H4 H5 H6.
+  destruct (set_line W quiet st n v cur val H1 H2 H3 H4 H5 H6) as [A B]. split; [exact A|].
+  rewrite B. unfold echo, println, say. rewrite <- !app_assoc. reflexivity.
+Qed.
+Print Assumptions C19_set_line.
+
 (* ... and .set NAME echoes it back; .set lists every setting in field order *)
 Theorem C19_set_echo : forall (W : World) st arg name v,
   arg <> [] -> shlex_split arg = ShOk [name] -> lookup st name = Some v ->
@@ -155,6 +170,21 @@ Theorem C19_run_not_found : forall (W : World) st arg name,
   do_run W st arg = [error W (s2z "query """ ++ name ++ s2z """ not found")].
 Proof. exact run_not_found. Qed.
 Print Assumptions C19_run_not_found.
+
+(* of several directives with one name the first is the named query *)
+Theorem C19_first_directive_wins : forall (W : World) name,
+  find_query W name = find (fun q => str_eqb (q_name q) name) (directives W).
+Proof. exact find_query_first. Qed.
+Print Assumptions C19_first_directive_wins.
+
+(* `.run *`: every named query in turn, each as `.run NAME` would run it, framed by its name and two empty lines *)
+Theorem C19_run_all : forall (W : World) st l,
+  (forall q, In q l -> raised W (execute W st (q_text q) (Some (q_date q))) = false) ->
+  run_all W st l =
+  flat_map (fun q => println W Stdout (q_name q ++ [58]) :: execute W st (q_text q) (Some (q_date q))
+                     ++ [println W Stdout []; println W Stdout []]) l.
+Proof. exact run_all_spec. Qed.
+Print Assumptions C19_run_all.
 
 (* ---- command line ---- *)
 Theorem C19_cli_options : forall (W : World) c,
